@@ -12,15 +12,23 @@ T(x) == <<"ty", x>>
 SrcTypes == { T("/number"), T("/string"), T("/name"), T("/any"), T("/time"), T("/duration"), <<"pre", <<"foo">>>>, <<"pre", <<"foobar">>>>, <<"pre", <<"bar">>>>,
               <<"union", <<T("/number"), T("/string")>>>>, <<"union", <<<<"pre", <<"foo">>>>, <<"pre", <<"bar">>>>>>>>, <<"tpair", T("/number"), T("/string")>>, <<"tpair", <<"pre", <<"foo">>>>, T("/number")>>,
               <<"tlist", T("/number")>>, <<"tlist", <<"pre", <<"foo">>>>>>, <<"tmap", T("/string"), T("/number")>>,
-              <<"tstruct", <<<<"a", T("/number"), FALSE>>>>>>, <<"tstruct", <<<<"a", T("/number"), FALSE>>, <<"b", T("/string"), FALSE>>>>>> }
-DstTypes == SrcTypes \cup { <<"pre", <<"foo", "a">>>>, <<"tpair", T("/any"), T("/any")>>, <<"tlist", T("/any")>>, <<"tmap", T("/any"), T("/number")>>,
+              <<"tstruct", <<<<"a", T("/number"), FALSE>>>>>>, <<"tstruct", <<<<"a", T("/number"), FALSE>>, <<"b", T("/string"), FALSE>>>>>>,
+              \* an optional field; a map keyed by a name prefix
+              <<"tstruct", <<<<"a", T("/number"), FALSE>>, <<"b", T("/string"), TRUE>>>>>>, <<"tmap", <<"pre", <<"foo">>>>, T("/number")>> }
+DstTypes == SrcTypes \cup { <<"pre", <<"foo", "a">>>>, <<"pre", <<"foo", "c">>>>, <<"tpair", T("/any"), T("/any")>>, <<"tlist", T("/any")>>, <<"tmap", T("/any"), T("/number")>>,
                             <<"union", <<<<"pre", <<"foo">>>>, T("/number")>>>> }
 Templates == {"copy", "pair_with_string", "fst", "snd", "plus1", "join_other", "list_of", "member", "cons_self", "name_to_string", "struct_get_a", "map_of", "none",
-              "neg_prefix_below", "neg_prefix_eq", "pos_prefix_below", "pos_prefix_eq", "neg_prefix_other"}
+              "neg_prefix_below", "neg_prefix_eq", "pos_prefix_below", "pos_prefix_eq", "neg_prefix_other",
+              \* literals that tell nothing (or only negative things) about a type: inequalities with a variable of another
+              \* predicate and with constants, a negated atom; list construction from a typed head / element; list
+              \* destructuring; a prefix spelled like a base type; a head argument with input mode; a two-column join
+              \* whose rows are feasible column-wise only; a tagged union
+              "ne_nums", "ne_const_name", "ne_const_num", "neg_nums", "cons_head_var", "append_var", "match_cons_head", "match_cons_tail",
+              "prefix_number", "copy_modein", "two_col_rows", "tagged_fact"}
 Consts == { Num(0), Num(1), Str("a"), Str("x"), Tm(1), Du(90), Cn(<<"time", "zone">>), Cn(<<"duration", "x">>), Cn(<<"foo", "a">>), Cn(<<"foo", "a", "b">>), Cn(<<"foo", "c">>), Cn(<<"foobar", "x">>), Cn(<<"bar">>), Cn(<<"bar", "b">>),
             Pair(Num(1), Str("a")), Pair(Cn(<<"foo", "a">>), Num(1)), Pair(Str("a"), Num(1)),
             List(<<>>), List(<<Num(1), Num(0)>>), List(<<Cn(<<"foo", "a">>)>>), List(<<Str("a")>>),
-            MapV(<<<<Str("k"), Num(1)>>>>), MapV(<<<<Num(1), Num(1)>>>>),
+            MapV(<<<<Str("k"), Num(1)>>>>), MapV(<<<<Num(1), Num(1)>>>>), MapV(<<<<Cn(<<"bar", "b">>), Num(1)>>>>), MapV(<<<<Cn(<<"foo", "a">>), Num(1)>>>>), MapV(<<<<Cn(<<"bar">>), Num(1)>>>>), Cn(<<"number", "x">>),
             StructV(<<<<Cn(<<"a">>), Num(1)>>>>), StructV(<<<<Cn(<<"a">>), Num(1)>>, <<Cn(<<"b">>), Str("x")>>>>) }
 Admitted(t) == {k \in Consts : Member(t, k)}
 Cases1 ==
@@ -32,7 +40,7 @@ Cases1 ==
 \* variable got from an earlier one (a wide predicate first, the multi-row predicate second, or the reverse)
 RowTypes == { T("/number"), T("/string"), T("/name"), <<"pre", <<"foo">>>>, <<"pre", <<"bar">>>>, <<"pre", <<"foobar">>>>,
               <<"tpair", T("/number"), T("/string")>>, <<"tlist", T("/number")>> }
-RowTemplates == {"copy", "any_then_src", "name_then_src", "src_then_any", "src_then_name", "join_other", "two_srcs"}
+RowTemplates == {"copy", "any_then_src", "name_then_src", "src_then_any", "src_then_name", "join_other", "two_srcs", "neg_nums", "ne_nums", "ne_const_name"}
 Cases2All ==
   {[t1 |-> t1, t1b |-> t1b, t2 |-> t2, t2b |-> t2b, tpl |-> tp, facts |-> SetToSeq(fs), dstfact |-> <<>>] :
      t1 \in RowTypes, t1b \in RowTypes, t2 \in RowTypes \cup {T("/any")}, t2b \in {<<>>} \cup {<<"pre", <<"bar">>>>, T("/string")},
@@ -58,7 +66,13 @@ Cases4 ==
   {[t1 |-> t1, t1b |-> <<>>, t2 |-> t2, t2b |-> <<>>, tpl |-> tp, facts |-> SetToSeq(fs), dstfact |-> <<>>] :
      t1 \in PrefTypes, t2 \in PrefDst, tp \in {"copy", "neg_prefix_below", "neg_prefix_eq", "pos_prefix_below", "pos_prefix_eq", "neg_prefix_other"},
      fs \in {{k} : k \in PrefConsts} \cup {{k1, k2} : k1 \in PrefConsts, k2 \in PrefConsts} }
-Cases == IF Family = "rows" THEN Cases2 ELSE IF Family = "recur" THEN Cases3 ELSE IF Family = "prefix" THEN Cases4 ELSE Cases1
+\* a base fact stated for the rule-defined predicate dst itself (before the rule), admitted by its bound or not
+Cases5 ==
+  {[t1 |-> t1, t1b |-> <<>>, t2 |-> t2, t2b |-> <<>>, tpl |-> tp, facts |-> SetToSeq(fs), dstfact |-> df] :
+     t1 \in SrcTypes, t2 \in DstTypes, tp \in {"copy", "join_other"},
+     fs \in {{}, {Num(1)}, {Str("a")}},
+     df \in Consts }
+Cases == IF Family = "dstfact" THEN Cases5 ELSE IF Family = "rows" THEN Cases2 ELSE IF Family = "recur" THEN Cases3 ELSE IF Family = "prefix" THEN Cases4 ELSE Cases1
 Init == c = <<>>
 Pick == c = <<>> /\ c' \in (IF Randomized THEN {RandomElement(Cases)} ELSE Cases)
 Next == Pick
